@@ -335,7 +335,7 @@ impl GenCfg {
         } else {
             (TreeSpec::node(0, TreeSpec::node(1, TreeSpec::Leaf(3), TreeSpec::Leaf(1)), TreeSpec::Leaf(2)), 3)
         };
-        let dur_means = [0.3f32, 1.6, 2.4, 0.45, 3.2, 1.2, 2.6];
+        let dur_means = [0.2f32, 1.6, 2.4, 0.45, 3.2, 1.2, 2.6];
         let dur = ModelSpec {
             prefix: "dur".into(),
             questions: qs.clone(),
